@@ -7,6 +7,7 @@ package main
 // scenario runner. c19b.go: generators, judges, the driver and replay.
 
 import (
+	"encoding/hex"
 	"bytes"
 	"compress/zlib"
 	"context"
@@ -369,6 +370,18 @@ type jnScenario struct {
 	Pace      bool    `json:"pace"`   // the sender pauses before every delimiter (early flushes become visible)
 	Batch     bool    `json:"batch"`  // handlers registered through variadic calls where possible
 	Online    int     `json:"online"` // players already in the PlayerList (status: players.online)
+	BUUID     string  `json:"buuid"`  // what the bot is configured with (Auth.UUID, hex): "" unset, the offline UUID, or a foreign one
+}
+
+// buuid is the UUID the bot puts into its login start (zero when it is configured with none)
+func (sc *jnScenario) buuid() []byte {
+	b := make([]byte, 16)
+	if sc.BUUID != "" {
+		if x, err := hex.DecodeString(sc.BUUID); err == nil && len(x) == 16 {
+			copy(b, x)
+		}
+	}
+	return b
 }
 
 // full: every s2c play packet is observed by a handler in sending order (the Join trace then carries bot precv events)
@@ -625,6 +638,7 @@ func jnDoPing(sc *jnScenario, log *jnLog, addr string) {
 func jnDoJoin(sc *jnScenario, log *jnLog, dialer *jnDialer, addr string) {
 	c := bot.NewClient()
 	c.Auth.Name = sc.Name
+	c.Auth.UUID = sc.BUUID
 	// registration, in the order of the scenario; a batch groups consecutive handlers of the same kind
 	counted := sc.recorderOnly()
 	calls := 0 // recorder-only scenarios: the k-th invocation is the k-th packet (payloads may be too short for an index)
